@@ -240,6 +240,11 @@ func (tb *TB) Add(a, b *Term) *Term {
 	if b.K == KSub && b.B == a {
 		return b.A
 	}
+	if (a.K == KShl || b.K == KShl) && !a.IsConst() && !b.IsConst() {
+		if m := tb.tryMergePieces(a, b); m != nil {
+			return m
+		}
+	}
 	m := mask(w)
 	hi, c := bits.Add64(a.Hi, b.Hi, 0)
 	if c != 0 || hi > m {
